@@ -27,9 +27,11 @@ def run(tier):
     binary = build.ensure('asan', parts=['parse', 'domdump'])
     docs = c15.pool_docs()
     from ..gen import xmlgen, xmlmut
+    gen_ents = []
     for i in range(25 if tier == 'quick' else 400):
         r = core.rng(ck.seed, PID, 'gen', i)
-        g = xmlgen.make(r)
+        g = xmlgen.make(r, file_prefix='g%d-' % i)
+        gen_ents += g['ents']
         docs.append(('gen-%d' % i, g['bytes'], {'ns': 1 if g['cx'].ns else 0}))
         ops = list(xmlmut.ALL_OPS)
         r.shuffle(ops)
@@ -55,7 +57,7 @@ def run(tier):
         for api in apis:
             for val in (('never',) if not dopt.get('schema') else ('always',)) + (('always',) if 'dtd' in name or 'ext' in name else ()):
                 o = dict(dopt, api=api, val=val, dump=0, mm=1, pool=1 if api in ('sax2', 'dom') else 0)
-                probe.append(core.Case('p.%s.%s.%s' % (name, api, val), 'parse', o, ents=c15.ENTS, meta={'doc': name}).doc(data))
+                probe.append(core.Case('p.%s.%s.%s' % (name, api, val), 'parse', o, ents=c15.ENTS + gen_ents, meta={'doc': name}).doc(data))
     recs = core.run_cases(binary, probe, tag='c18p', extra_args=['--global-ledger'])
     plans = []
     for c in probe:
@@ -130,7 +132,7 @@ def run(tier):
     for name, data, dopt in docs[:8]:
         for api in ('sax2', 'dom'):
             for nest in (0, 1, 3):
-                it.append(core.Case('it.%s.%s.%d' % (name, api, nest), 'initterm', dict(dopt, api=api, cycles=2, nest=nest, dump=0), ents=c15.ENTS).doc(data))
+                it.append(core.Case('it.%s.%s.%d' % (name, api, nest), 'initterm', dict(dopt, api=api, cycles=2, nest=nest, dump=0), ents=c15.ENTS + gen_ents).doc(data))
     recs = core.run_cases(binary, it, tag='c18i')
     for c in it:
         r_ = recs.get(c.id)
